@@ -64,10 +64,18 @@ func (c *Catalog) alterTable(stmt *ast.AlterTableStmt) error {
 			switch cmd.Subtype {
 
 			case ast.AT_AddColumn:
+				exists := false
 				for _, c := range table.Columns {
 					if c.Name == cmd.Def.Colname {
-						return sqlerr.ColumnExists(table.Rel.Name, c.Name)
+						exists = true
 					}
+				}
+				if exists && cmd.MissingOk {
+					// ADD COLUMN IF NOT EXISTS on an existing column is a no-op
+					continue
+				}
+				if exists {
+					return sqlerr.ColumnExists(table.Rel.Name, cmd.Def.Colname)
 				}
 				table.Columns = append(table.Columns, &Column{
 					Name:      cmd.Def.Colname,
